@@ -354,6 +354,16 @@ theorem postfix_tighter_than_prefix {a : CST} {pre post : Name} (ha : Canon regs
   have h := groups_as_written regs tb lim (.unary pre (.postfix a post)) ⟨hpre, rfl, hpost, hpa, ha⟩ hf
   simpa [CST.flatten, CST.strip] using h
 
+/-- every postfix operator after an operand belongs to it, also under a prefix operator:
+`pre a p₁ p₂ = pre ((a p₁) p₂)` (before the repair recorded as `fixed: C11 … postfix` the second
+postfix operator applied to the whole prefix expression) -/
+theorem postfix_chain_under_prefix {a : CST} {pre p₁ p₂ : Name} (ha : Canon regs a) (hpa : a.postfixable = true)
+    (hpre : regs.isPrefix pre = true) (h₁ : regs.isPostfix p₁ = true) (h₂ : regs.isPostfix p₂ = true)
+    (hf : Fits lim (.unary pre (.postfix (.postfix a p₁) p₂))) :
+    parseTokens regs lim (.op pre :: (a.flatten ++ [.op p₁, .op p₂])) = .ok (.unary pre (.postfix (.postfix a.strip p₁) p₂)) := by
+  have h := groups_as_written regs tb lim (.unary pre (.postfix (.postfix a p₁) p₂)) ⟨hpre, rfl, h₂, rfl, h₁, hpa, ha⟩ hf
+  simpa [CST.flatten, CST.strip] using h
+
 /-- … and both bind tighter than any infix operator: `pre a post o b = (pre (a post)) o b` -/
 theorem prefix_postfix_then_infix {a b : CST} {pre post o : Name} (ha : Canon regs a) (hpa : a.postfixable = true) (hb : Opnd regs b)
     (hpre : regs.isPrefix pre = true) (hpost : regs.isPostfix post = true) (ho : regs.isInfix o = true)
